@@ -1,14 +1,17 @@
 /- line-protocol driver for C20: `drv_c20 <sub-command>`.
    Core Lean only (nothing imported here may import Mathlib, or the executable will not link).
      drv_c20 codegen <dumpfile>     assembly text of the code-generation model for an AST dump
-     drv_c20 effect <dumpfile>      Effect.checkBody on the code of every function body -/
+     drv_c20 effect <dumpfile>      Effect.checkBody on the code of every function body
+     drv_c20 scope <dumpfile>       typing side condition and theorem coverage of every function -/
 import ChibiVerif.Driver.CodegenCmd
 import ChibiVerif.Driver.EffectCmd
+import ChibiVerif.Driver.ScopeCmd
 
 def main (args : List String) : IO UInt32 := do
   match args with
   | "codegen" :: rest => ChibiVerif.Driver.codegenMain rest
   | "effect" :: rest => ChibiVerif.Driver.effectMain rest
+  | "scope" :: rest => ChibiVerif.Driver.scopeMain rest
   | _ =>
-    IO.eprintln "usage: drv_c20 codegen|effect <dumpfile>"
+    IO.eprintln "usage: drv_c20 codegen|effect|scope <dumpfile>"
     return 2
